@@ -375,6 +375,9 @@ impl Prop for C14 {
       _ => panic!("unknown task {}", t),
     }
   }
+  fn cold_subs(&self) -> Vec<(&'static str, i64, i64, fn(i64) -> Vec<i64>)> {
+    vec![("dweek", 40, crate::model::NDAYS as i64 - 40, |x| vec![x, x.rem_euclid(7), (x / 7).rem_euclid(9) - 4, 0])]
+  }
   fn eval(&self, env: &Env, out: &mut Out, sub: &str, case: &Case) {
     match sub {
       "mweeks" => self.eval_mweeks(env, out, case),
